@@ -27,6 +27,7 @@ Inductive err : Type :=
 | EIdxCorrupt      (* "corrupted state index"           *)
 | EIdxEmptyBlock   (* "empty state history index block" *)
 | EIdxOrder        (* "index block id is out of order"  *)
+| EScanVarint      (* "corrupted index block, invalid varint" (writer section scan) *)
 | EPanic           (* Go runtime panic (index/slice out of range) *)
 | EFuel.           (* loop did not finish within the fuel: non-termination suspect *)
 
@@ -35,7 +36,7 @@ Definition err_code (e : err) : Z :=
   | EBlkEmpty => 1 | ENoRestart => 2 | ETruncRestarts => 3 | ERestartOrder => 4
   | ERestartPos => 5 | EZeroId => 6 | EAppendOrder => 7 | EPopOrder => 8
   | EPopNotFound => 9 | EDecodeItem => 10 | EIdxEmpty => 11 | EIdxCorrupt => 12
-  | EIdxEmptyBlock => 13 | EIdxOrder => 14 | EPanic => 20 | EFuel => 21
+  | EIdxEmptyBlock => 13 | EIdxOrder => 14 | EScanVarint => 15 | EPanic => 20 | EFuel => 21
   end%Z.
 
 Inductive res (A : Type) : Type :=
@@ -130,27 +131,30 @@ Definition bw_append (b : bwriter) (id : N) : res bwriter :=
    b.data[pos:], carried along instead of being re-sliced on every iteration
    (binary.Uvarint never reports more bytes than the buffer holds, so
    data[pos+n:] = buf[n:]); it is re-sliced, checked, when pos moves backwards. *)
-Fixpoint scan_loop {St : Type} (fuel : nat) (data : list N) (start limit : N)
+Fixpoint scan_loop {St : Type} (chk : bool) (fuel : nat) (data : list N) (start limit : N)
          (fn : St -> N -> N -> St * bool) (pos : N) (buf : list N) (value : N) (s : St) : res St :=
   if pos <? limit then
     match fuel with
     | O => Err EFuel
     | S f =>
-        let '(x, adv) :=
-          match uvarint buf with
-          | UvOk x n => (x, inl n)
-          | UvShort => (0, inl O)
-          | UvOver k => (0, inr k)
-          end in
+        (* x, n := binary.Uvarint(b.data[pos:]); if n <= 0 { return error }
+           [chk = true] is the current code; [chk = false] is the code before
+           /repo commit 2876db98, which did not look at n *)
+        do xa <- match uvarint buf with
+                 | UvOk x n => Ok (x, inl n)
+                 | UvShort => if chk then Err EScanVarint else Ok (0, inl O)
+                 | UvOver k => if chk then Err EScanVarint else Ok (0, inr k)
+                 end;
+        let '(x, adv) := xa in
         let value' := if pos =? start then x else wrap64 (value + x) in
         let '(s', stop) := fn s value' pos in
         if stop then Ok s'
         else match adv with
-             | inl n => scan_loop f data start limit fn (pos + N.of_nat n) (skipn n buf) value' s'
-             | inr k => (* pos += n with n = -k: a negative pos panics at the next data[pos:] *)
+             | inl n => scan_loop chk f data start limit fn (pos + N.of_nat n) (skipn n buf) value' s'
+             | inr k => (* old code only: pos += n with n = -k; a negative pos panics at the next data[pos:] *)
                  if N.of_nat k <=? pos then
                    do buf' <- slice_from data (N.to_nat (pos - N.of_nat k));
-                   scan_loop f data start limit fn (pos - N.of_nat k) buf' value' s'
+                   scan_loop chk f data start limit fn (pos - N.of_nat k) buf' value' s'
                  else Err EPanic
              end
     end
@@ -163,7 +167,7 @@ Definition scan_section {St : Type} (restarts data : list N)
                else idx restarts (section + 1));
   if start <? limit then
     do buf <- slice_from data (N.to_nat start);
-    scan_loop (S (length data)) data start limit fn start buf 0 s
+    scan_loop true (S (length data)) data start limit fn start buf 0 s
   else Ok s.
 
 (* sectionLast (365-374) *)
